@@ -55,6 +55,10 @@ if __name__ == "__main__":
     mk("c09-min-to-max", R + "timeout.py", "earliest = min([job.deadline for job in pending])", "earliest = max([job.deadline for job in pending])")
     mk("c09-deadline-from-default", R + "timeout.py", "job = Job(future, delegate_future, monotonic() + timeout)", "job = Job(future, delegate_future, monotonic() + (self._timeout or timeout))")
     mk("c09-wait-time-not-recomputed-on-done", R + "timeout.py", "            elif job.deadline < now:\n                overdue.append(job)", "            elif job.deadline <= now + 0.03:\n                overdue.append(job)")
+    # C10
+    mk("c10-register-after-gate", R + "cancel_on_shutdown.py", "        with self._shutdown.ensure_alive():\n            with self._lock:\n                future = self._delegate.submit(*args, **kwargs)\n                self._futures.add(future)\n                future.add_done_callback(self._futures.discard)\n            return future", "        with self._shutdown.ensure_alive():\n            future = self._delegate.submit(*args, **kwargs)\n        with self._lock:\n            self._futures.add(future)\n            future.add_done_callback(self._futures.discard)\n        return future")
+    mk("c10-snapshot-before-flag", R + "cancel_on_shutdown.py", "        if not self._shutdown():\n            return\n        metrics.EXEC_INPROGRESS.labels(\n            type=\"cancel_on_shutdown\", executor=self._name\n        ).dec()\n        with self._lock:\n            futures = self._futures.copy()\n", "        with self._lock:\n            futures = self._futures.copy()\n        if not self._shutdown():\n            return\n        metrics.EXEC_INPROGRESS.labels(\n            type=\"cancel_on_shutdown\", executor=self._name\n        ).dec()\n")
+    mk("c10-no-delegate-shutdown-when-empty", R + "cancel_on_shutdown.py", "        self._delegate.shutdown(wait, **_kwargs)", "        if futures or wait:\n            self._delegate.shutdown(wait, **_kwargs)")
     # C07
     mk("c07-throttle-ge-to-gt", R + "throttle.py", "(executor._running_count.value >= throttle)", "(executor._running_count.value > throttle)")
     mk("c07-incr-after-submit", R + "throttle.py", "            executor._running_count.incr()\n            metrics.THROTTLE_QUEUE", "            metrics.THROTTLE_QUEUE")
